@@ -354,4 +354,149 @@ open Moments Cross Fairness in
 example : named "demographic_parity_difference" .toOverall 1
     (toFrame (inE (eventOf .dp) "all") xFitRows (toRat [0, 0, 0, 1])) = some (.value (XR.fin (1/4))) := by decide +kernel
 
+open Moments Cross Fairness in
+/-- **GridSearch(TruePositiveRateParity) end to end**, real event rule, with or without control features:
+    equal_opportunity_difference of the RETURNED predictor -/
+theorem gridsearch_tpr_end_to_end (rows : List Row) (c0 : Option String)
+    (span : Bool) (cwOf : List Rat → List Rat) (ow : List Rat) (learner : List (Nat × Rat) → List Nat)
+    (objOf : List Nat → Rat) (cw : Rat) (grid : List (List Rat)) (out : FitOut) (eps : Rat)
+    (hcw : 0 < cw) (hcw1 : cw ≤ 1)
+    (hfit : fitLoop span cwOf ow learner objOf (fun p => gamma (eventOf .tpr) rows 1 defaultUtil (toRat p)) cw grid = some out)
+    (hobj : ∀ p ∈ out.preds, 0 ≤ objOf p ∧ objOf p ≤ 1)
+    (hshape : ∀ p ∈ out.preds, p.length = rows.length ∧ ∀ x ∈ p, x = 0 ∨ x = 1)
+    (hsome : ∃ p ∈ out.preds, GammaLe (eventOf .tpr) rows 1 defaultUtil (toRat p) eps)
+    (hy : ∀ r ∈ rows, r.y = 0 ∨ r.y = 1) (hne : rows.filter (fun r => r.c == c0) ≠ [])
+    (hcov : ∀ r ∈ rows, (r.c == c0) = true → ∃ r2 ∈ rows, (r2.c == c0) = true ∧ r2.g = r.g ∧ r2.y = 1) :
+    ∃ hb : out.best < out.preds.length,
+      (∃ D, named "equal_opportunity_difference" .toOverall 1 (toFrame (fun r => r.c == c0) rows (toRat out.preds[out.best]))
+          = some (.value (XR.fin D)) ∧ 0 ≤ D ∧ D ≤ eps + (1 - cw) / cw) ∧
+      (∃ D, named "equal_opportunity_difference" .between 1 (toFrame (fun r => r.c == c0) rows (toRat out.preds[out.best]))
+          = some (.value (XR.fin D)) ∧ 0 ≤ D ∧ D ≤ 2 * (eps + (1 - cw) / cw)) := by
+  obtain ⟨hb, hg⟩ := fit_selected_gammaLe (eventOf .tpr) rows 1 defaultUtil span cwOf ow learner objOf cw grid out eps
+    hcw hcw1 hfit hobj hsome
+  obtain ⟨hl, h01⟩ := hshape _ (List.getElem_mem hb)
+  exact ⟨hb, C06.eopp_difference_le_of_constraint (eventOf .tpr) rows _ _
+    (C06.stratumEvent c0 (MomentsSrc.labelEvent 1)) (fun r => r.c == c0) (by simpa [toRat] using hl) (toRat_hard _ h01)
+    hy hne (C06.tpr_selects c0) hcov hg⟩
+
+open Moments Cross Fairness in
+/-- **GridSearch(ErrorRateParity) end to end**: `accuracy_score_difference` (and, by
+    `C03.accuracy_difference_eq_zero_one_difference`, `zero_one_loss_difference`) of the RETURNED predictor -/
+theorem gridsearch_erp_end_to_end (rows : List Row) (c0 : Option String)
+    (span : Bool) (cwOf : List Rat → List Rat) (ow : List Rat) (learner : List (Nat × Rat) → List Nat)
+    (objOf : List Nat → Rat) (cw : Rat) (grid : List (List Rat)) (out : FitOut) (eps : Rat)
+    (hcw : 0 < cw) (hcw1 : cw ≤ 1)
+    (hfit : fitLoop span cwOf ow learner objOf (fun p => gamma (eventOf .erp) rows 1 erpUtil (toRat p)) cw grid = some out)
+    (hobj : ∀ p ∈ out.preds, 0 ≤ objOf p ∧ objOf p ≤ 1)
+    (hshape : ∀ p ∈ out.preds, p.length = rows.length ∧ ∀ x ∈ p, x = 0 ∨ x = 1)
+    (hsome : ∃ p ∈ out.preds, GammaLe (eventOf .erp) rows 1 erpUtil (toRat p) eps)
+    (hy : ∀ r ∈ rows, r.y = 0 ∨ r.y = 1) (hne : rows.filter (fun r => r.c == c0) ≠ []) :
+    ∃ hb : out.best < out.preds.length,
+      (∃ D, generated "accuracy_score_difference" .toOverall 1 (toFrame (fun r => r.c == c0) rows (toRat out.preds[out.best]))
+          = some (some (.value (XR.fin D))) ∧ 0 ≤ D ∧ D ≤ eps + (1 - cw) / cw) ∧
+      (∃ D, generated "accuracy_score_difference" .between 1 (toFrame (fun r => r.c == c0) rows (toRat out.preds[out.best]))
+          = some (some (.value (XR.fin D))) ∧ 0 ≤ D ∧ D ≤ 2 * (eps + (1 - cw) / cw)) := by
+  obtain ⟨hb, hg⟩ := fit_selected_gammaLe (eventOf .erp) rows 1 erpUtil span cwOf ow learner objOf cw grid out eps
+    hcw hcw1 hfit hobj hsome
+  obtain ⟨hl, h01⟩ := hshape _ (List.getElem_mem hb)
+  exact ⟨hb, (C06.erp_constraint_bounds rows _ _ c0 (by simpa [toRat] using hl) (toRat_hard _ h01) hy hne hg).1⟩
+
+open Moments Cross Fairness in
+/-- **GridSearch(DemographicParity(ratio_bound = r, ratio_bound_slack = eps)) end to end**: lower bounds on
+    `demographic_parity_ratio` of the RETURNED predictor, with `eps' = eps + (1 − cw)/cw` and `μ` its overall selection
+    rate on the event's rows -/
+theorem gridsearch_dp_ratio_end_to_end (ev : Ev) (rows : List Row) (e : String) (ratio : Rat)
+    (span : Bool) (cwOf : List Rat → List Rat) (ow : List Rat) (learner : List (Nat × Rat) → List Nat)
+    (objOf : List Nat → Rat) (cw : Rat) (grid : List (List Rat)) (out : FitOut) (eps : Rat)
+    (hcw : 0 < cw) (hcw1 : cw ≤ 1) (hr : 0 < ratio) (hr1 : ratio ≤ 1) (he : 0 ≤ eps)
+    (hfit : fitLoop span cwOf ow learner objOf (fun p => gamma ev rows ratio defaultUtil (toRat p)) cw grid = some out)
+    (hobj : ∀ p ∈ out.preds, 0 ≤ objOf p ∧ objOf p ≤ 1)
+    (hshape : ∀ p ∈ out.preds, p.length = rows.length ∧ ∀ x ∈ p, x = 0 ∨ x = 1)
+    (hsome : ∃ p ∈ out.preds, GammaLe ev rows ratio defaultUtil (toRat p) eps)
+    (hne : ∃ g, Observed ev rows e g)
+    (hm : ∀ p ∈ out.preds, 0 < mE ev rows defaultUtil (toRat p) e) :
+    ∃ hb : out.best < out.preds.length,
+      (∃ ρ, named "demographic_parity_ratio" .between 1 (toFrame (inE ev e) rows (toRat out.preds[out.best])) = some (.value (XR.fin ρ)) ∧
+        ratio * (ratio * mE ev rows defaultUtil (toRat out.preds[out.best]) e - (eps + (1 - cw) / cw))
+          / (mE ev rows defaultUtil (toRat out.preds[out.best]) e + (eps + (1 - cw) / cw)) ≤ ρ) ∧
+      (∃ ρ, named "demographic_parity_ratio" .toOverall 1 (toFrame (inE ev e) rows (toRat out.preds[out.best])) = some (.value (XR.fin ρ)) ∧
+        (ratio * mE ev rows defaultUtil (toRat out.preds[out.best]) e - (eps + (1 - cw) / cw))
+          / mE ev rows defaultUtil (toRat out.preds[out.best]) e ≤ ρ) := by
+  obtain ⟨hb, hg⟩ := fit_selected_gammaLe ev rows ratio defaultUtil span cwOf ow learner objOf cw grid out eps
+    hcw hcw1 hfit hobj hsome
+  obtain ⟨hl, h01⟩ := hshape _ (List.getElem_mem hb)
+  have he' : 0 ≤ eps + (1 - cw) / cw := add_nonneg he (div_nonneg (by linarith) (le_of_lt hcw))
+  exact ⟨hb, C06.dp_ratio_ge_of_constraint ev rows _ ratio _ e (by simpa [toRat] using hl) (toRat_hard _ h01) hne hr hr1 he'
+    (hm _ (List.getElem_mem hb)) hg⟩
+
+/-! all-hypotheses examples for the three corollaries: the run `xFit` with the gamma of the respective moment -/
+def xFitWith (gam : List Nat → List Rat) : Option FitOut :=
+  fitLoop false (fun lam => lam) [0, 0, 0, 0] (fun d => d.map (·.1)) (fun p => (p.map (fun x => if x = 1 then (1 : Rat) / 4 else 0)).sum)
+    gam 1 [[1, 1, -1, -1], [-1, -1, -1, 1/2]]
+
+theorem xFitWith_preds (gam : List Nat → List Rat) (out : FitOut) (h : xFitWith gam = some out) :
+    out.preds = [[1, 1, 0, 0], [0, 0, 0, 1]] := by
+  simp only [xFitWith, fitLoop, Option.map_eq_some_iff] at h
+  obtain ⟨b, _, rfl⟩ := h
+  show List.map (fun lam => trainAt (fun d => List.map (fun x => x.1) d) (relabel (combineWeights false lam [0, 0, 0, 0])))
+      [[1, 1, -1, -1], [-1, -1, -1, 1 / 2]] = [[1, 1, 0, 0], [0, 0, 0, 1]]
+  decide +kernel
+
+open Moments Cross Fairness in
+example (out : FitOut)
+    (h : xFitWith (fun p => gamma (eventOf .tpr) xFitRows 1 defaultUtil (toRat p)) = some out) :
+    ∃ _ : out.best < out.preds.length,
+      (∃ D, named "equal_opportunity_difference" .toOverall 1 (toFrame (fun r => r.c == none) xFitRows (toRat out.preds[out.best]))
+          = some (.value (XR.fin D)) ∧ 0 ≤ D ∧ D ≤ 0 + (1 - 1) / 1) ∧
+      (∃ D, named "equal_opportunity_difference" .between 1 (toFrame (fun r => r.c == none) xFitRows (toRat out.preds[out.best]))
+          = some (.value (XR.fin D)) ∧ 0 ≤ D ∧ D ≤ 2 * (0 + (1 - 1) / 1)) := by
+  have hp := xFitWith_preds _ out h
+  apply gridsearch_tpr_end_to_end xFitRows none false (fun lam => lam) [0, 0, 0, 0] (fun d => d.map (·.1))
+    (fun p => (p.map (fun x => if x = 1 then (1 : Rat) / 4 else 0)).sum) 1 [[1, 1, -1, -1], [-1, -1, -1, 1/2]] out 0
+    (by norm_num) (le_refl _) h
+  · rw [hp]; decide +kernel
+  · rw [hp]; decide +kernel
+  · rw [hp]; exact ⟨[0, 0, 0, 1], by simp, by decide +kernel⟩
+  · decide +kernel
+  · decide +kernel
+  · decide +kernel
+
+open Moments Cross Fairness in
+example (out : FitOut)
+    (h : xFitWith (fun p => gamma (eventOf .erp) xFitRows 1 erpUtil (toRat p)) = some out) :
+    ∃ _ : out.best < out.preds.length,
+      (∃ D, generated "accuracy_score_difference" .toOverall 1 (toFrame (fun r => r.c == none) xFitRows (toRat out.preds[out.best]))
+          = some (some (.value (XR.fin D))) ∧ 0 ≤ D ∧ D ≤ 0 + (1 - 1) / 1) ∧
+      (∃ D, generated "accuracy_score_difference" .between 1 (toFrame (fun r => r.c == none) xFitRows (toRat out.preds[out.best]))
+          = some (some (.value (XR.fin D))) ∧ 0 ≤ D ∧ D ≤ 2 * (0 + (1 - 1) / 1)) := by
+  have hp := xFitWith_preds _ out h
+  apply gridsearch_erp_end_to_end xFitRows none false (fun lam => lam) [0, 0, 0, 0] (fun d => d.map (·.1))
+    (fun p => (p.map (fun x => if x = 1 then (1 : Rat) / 4 else 0)).sum) 1 [[1, 1, -1, -1], [-1, -1, -1, 1/2]] out 0
+    (by norm_num) (le_refl _) h
+  · rw [hp]; decide +kernel
+  · rw [hp]; decide +kernel
+  · rw [hp]; exact ⟨[1, 1, 0, 0], by simp, by decide +kernel⟩
+  · decide +kernel
+  · decide +kernel
+
+open Moments Cross Fairness in
+example (out : FitOut)
+    (h : xFitWith (fun p => gamma (eventOf .dp) xFitRows (1/2) defaultUtil (toRat p)) = some out) :
+    ∃ _ : out.best < out.preds.length,
+      (∃ ρ, named "demographic_parity_ratio" .between 1 (toFrame (inE (eventOf .dp) "all") xFitRows (toRat out.preds[out.best])) = some (.value (XR.fin ρ)) ∧
+        (1/2) * ((1/2) * mE (eventOf .dp) xFitRows defaultUtil (toRat out.preds[out.best]) "all" - (1/8 + (1 - 1) / 1))
+          / (mE (eventOf .dp) xFitRows defaultUtil (toRat out.preds[out.best]) "all" + (1/8 + (1 - 1) / 1)) ≤ ρ) ∧
+      (∃ ρ, named "demographic_parity_ratio" .toOverall 1 (toFrame (inE (eventOf .dp) "all") xFitRows (toRat out.preds[out.best])) = some (.value (XR.fin ρ)) ∧
+        ((1/2) * mE (eventOf .dp) xFitRows defaultUtil (toRat out.preds[out.best]) "all" - (1/8 + (1 - 1) / 1))
+          / mE (eventOf .dp) xFitRows defaultUtil (toRat out.preds[out.best]) "all" ≤ ρ) := by
+  have hp := xFitWith_preds _ out h
+  apply gridsearch_dp_ratio_end_to_end (eventOf .dp) xFitRows "all" (1/2) false (fun lam => lam) [0, 0, 0, 0] (fun d => d.map (·.1))
+    (fun p => (p.map (fun x => if x = 1 then (1 : Rat) / 4 else 0)).sum) 1 [[1, 1, -1, -1], [-1, -1, -1, 1/2]] out (1/8)
+    (by norm_num) (le_refl _) (by norm_num) (by norm_num) (by norm_num) h
+  · rw [hp]; decide +kernel
+  · rw [hp]; decide +kernel
+  · rw [hp]; exact ⟨[0, 0, 0, 1], by simp, by decide +kernel⟩
+  · exact ⟨"a", ⟨1, "a", none⟩, by decide +kernel, by decide +kernel, rfl⟩
+  · rw [hp]; decide +kernel
+
 end C09
